@@ -2480,8 +2480,13 @@ func (s *Server) serveConnCounted(c net.Conn, countConcurrency bool) error {
 		ctx.Request.secureErrorLogMessage = s.SecureErrorLogMessage
 		ctx.Response.secureErrorLogMessage = s.SecureErrorLogMessage
 
+		if err == nil && idleConnTime.Swap(0) == idleConnClosing {
+			// closeIdleConns has claimed this connection as idle and is closing
+			// it: do not start serving a request on it.
+			err = io.EOF
+		}
+
 		if err == nil {
-			idleConnTime.Store(0)
 			s.setState(c, StateActive)
 
 			if s.ReadTimeout > 0 {
@@ -2791,13 +2796,21 @@ func (s *Server) serveConnCounted(c net.Conn, countConcurrency bool) error {
 			ctx.Request.bodyStream = nil
 		}
 
-		idleConnTime.Store(ctx.time.Unix())
+		// With another request already buffered the connection is not idle: that
+		// request is served next and the response above may still be unflushed.
+		if br == nil || br.Buffered() == 0 {
+			idleConnTime.Store(ctx.time.Unix())
+		}
 		s.setState(c, StateIdle)
 		ctx.Request.Reset()
 		ctx.Response.Reset()
 
 		if s.stop.Load() == 1 {
 			err = nil
+			if bw != nil {
+				// The response may still be buffered if the next request was pipelined.
+				err = bw.Flush()
+			}
 			break
 		}
 	}
@@ -3207,12 +3220,18 @@ func (s *Server) writeErrorResponse(bw *bufio.Writer, ctx *RequestCtx, serverNam
 
 var idleConnTimePool sync.Pool
 
+// idleConnClosing is stored in a connection's idle time by closeIdleConns
+// when it has claimed the connection for closing.
+const idleConnClosing int64 = -1
+
 func (s *Server) closeIdleConns() {
 	s.idleConnsMu.Lock()
 	now := time.Now().Unix()
 	for c, ict := range s.idleConns {
 		t := ict.Load()
-		if t != 0 && now-t >= 0 {
+		// Claim the connection before closing it: its serve loop may be
+		// turning it active at this very moment.
+		if t != 0 && now-t >= 0 && ict.CompareAndSwap(t, idleConnClosing) {
 			_ = c.Close()
 			// Don't recycle ict: the connection's own goroutine still holds it
 			// and stores into it, so only that goroutine may return it.
